@@ -29,7 +29,7 @@ def full_table_check(p, t):
                 n += 1
                 if nxt[si, ai, ei].tolist() != want_s:
                     return f"successor of state {s}, action {a}, event {e} is {nxt[si, ai, ei].tolist()}, documented dynamics give {want_s}", n
-                if abs(float(rew[si, ai, ei]) - want_r) > 1e-9 * max(1.0, abs(want_r)):
+                if not (abs(float(rew[si, ai, ei]) - want_r) <= 1e-9 * max(1.0, abs(want_r))):
                     return f"reward of state {s}, action {a}, event {e} is {float(rew[si, ai, ei])}, documented dynamics give {want_r}", n
     return None, n
 
